@@ -75,17 +75,21 @@ func c07copyAs(c *core.Ctx, R string) {
 		return
 	}
 	okCopy := false
-	ast.Inspect(d.Decl.Body, func(n ast.Node) bool {
-		rs, ok := n.(*ast.RangeStmt)
-		if !ok || !strings.HasSuffix(core.ExprStr(rs.X), ".Children()") {
-			return true
+	for _, lp := range collLoops(d.Pkg, d.Decl.Body) {
+		if !strings.HasSuffix(lp.coll, ".Children()") {
+			continue
 		}
+		// the element may first be put into a local: child := children[i]
+		elems := map[string]bool{lp.elem: true}
 		var copyVar types.Object
 		inherited, added := false, false
-		for _, s := range rs.Body.List {
+		for _, s := range lp.body.List {
 			switch x := s.(type) {
 			case *ast.AssignStmt:
-				if len(x.Rhs) == 1 && strings.HasSuffix(core.ExprStr(x.Rhs[0]), ".Copy()") && core.ExprStr(x.Rhs[0]) == core.ExprStr(rs.Value)+".Copy()" {
+				if len(x.Rhs) == 1 && len(x.Lhs) == 1 && elems[core.ExprStr(x.Rhs[0])] {
+					elems[core.ExprStr(x.Lhs[0])] = true
+				}
+				if len(x.Rhs) == 1 && strings.HasSuffix(core.ExprStr(x.Rhs[0]), ".Copy()") && elems[strings.TrimSuffix(core.ExprStr(x.Rhs[0]), ".Copy()")] {
 					if id, ok := x.Lhs[0].(*ast.Ident); ok {
 						copyVar = d.Pkg.TypesInfo.ObjectOf(id)
 					}
@@ -109,8 +113,8 @@ func c07copyAs(c *core.Ctx, R string) {
 			}
 		}
 		okCopy = copyVar != nil && inherited && added
-		return false
-	})
+		break
+	}
 	c.Check(okCopy, R, "extendWith:copy-mark-add", c.P.Pos(d.Decl.Pos()), "inherited children: cn := child.Copy(); cn.SetInheritedFrom(name); AddChild(key, cn)", "the inherited child is not a copy marked with its source type: the type's own node is shared (later edits, e.g. SetInheritedFrom or required keys, leak into the type and into every other user), or the origin mark is missing")
 	// every Copy implementation
 	I := c.P.Pkg("notations/jschema/ischema")
